@@ -5059,6 +5059,11 @@ class PyCdlib:
         if old_rec.is_dir():
             raise pycdlibexception.PyCdlibInvalidInput('Cannot make a hard link to a directory')
 
+        if isinstance(old_rec, dr.DirectoryRecord) and old_rec.is_symlink():
+            # A Rock Ridge symlink has no contents to share; the new name would
+            # get the mode of a symlink but no target.
+            raise pycdlibexception.PyCdlibInvalidInput('Cannot make a hard link to a Rock Ridge symlink')
+
         if self.eltorito_boot_catalog is not None and any(old_rec is rec for rec in self.eltorito_boot_catalog.dirrecords):
             # The old path is one of the names of the El Torito boot catalog,
             # so the new name is another one; the catalog has to know it.
